@@ -1,10 +1,10 @@
 CONSTANTS
-  MaxChain = 1
-  PathSet <- AllPaths
-  Combos <- QuickCombos
+  MaxChain = 2
+  PathSet <- PrePaths
+  Combos <- PreCombos
   ClsSet <- Classes
   OrderSet <- BothOrders
-  PreSet <- PlainPre
+  PreSet <- OtherPre
 INIT Init
 NEXT Next
 INVARIANT Export
